@@ -54,12 +54,20 @@ def py(v):
     return v
 
 
+def isnan(v):
+    return isinstance(v, float) and math.isnan(v)
+
+
 def coder(values, s):
-    labs = sorted({py(v) for v in values if not is_missing(py(v), s)})
+    labs = sorted({py(v) for v in values if not is_missing(py(v), s) and not isnan(py(v))})
     cmap = {v: i + 1 for i, v in enumerate(labs)}
     def code(v):
         v = py(v)
-        return 0 if is_missing(v, s) else cmap[v]
+        if is_missing(v, s):
+            return 0
+        if isnan(v):          # NaN used as an ordinary (non-sentinel) entry: sorts last
+            return len(labs) + 1
+        return cmap[v]
     return code
 
 
@@ -96,6 +104,12 @@ def gen_vectors(ctx):
                 for n in range(0, maxlen + 1):
                     for tup in itertools.product(alpha + [MISS], repeat=n):
                         yield [s if v is MISS else v for v in tup], s, "exh"
+    # NaN entries that are NOT the sentinel (numeric sentinel): they must stay "labeled"
+    for s in (-1, 99, -1.0, 7.5):
+        for n in range(1, 4):
+            for tup in itertools.product([1.0, 2.5, NAN, MISS], repeat=n):
+                if any(isnan(v) for v in tup if v is not MISS):
+                    yield [float(s) if v is MISS else v for v in tup], s, "nanlabel"
     rng = ctx.rng("vec")
     for _ in range(150 if ctx.is_quick else 3000):
         strs = rng.random() < 0.4
@@ -182,7 +196,7 @@ def run(ctx):
                     if mixed:
                         ctx.nontriv(("pred2", repr(vals), repr(s), name, shape))
             # encoder (arrays only; lists are converted by check_array the same way)
-            if name in ("list",):
+            if name in ("list",) or tag == "nanlabel":
                 continue
             for classes_mode in ("none", "given", "superset", "subset"):
                 labs = sorted({py(v) for v in vals if not is_missing(py(v), s)})
